@@ -1,0 +1,317 @@
+//go:build verif
+// +build verif
+
+package dicescript
+
+import (
+	"unsafe"
+
+	"golang.org/x/exp/rand"
+)
+
+// Verification hooks (build tag `verif`). Everything in this file is observation only:
+// the hooks never change what the library computes. With the tag off verif_off.go
+// provides empty functions with the same names.
+
+// VerifHooks is the table of observers. It is written once by the harness before any
+// VM is used and only read afterwards.
+type VerifHooks struct {
+	// Tick fires at the top of the dispatch loop, before instruction pc is executed.
+	Tick func(ctx *Context, pc int)
+	// Roll fires after each die drawn by RollCommon/RollCoC/RollFate/RollWoD/RollDoubleCross.
+	Roll func(src *rand.PCGSource, sides IntType, mode int, result IntType, family string)
+	// Parsed fires at the end of Context.Parse (both outcomes).
+	Parsed func(ctx *Context, src string, err error)
+	// CodeDrop fires when WriteCode discards an instruction because the buffer is full.
+	CodeDrop func()
+	// Emit fires for every instruction written by the parser actions.
+	Emit func(textOffset int, codeIndex int, op string)
+	// Yield fires at points where another goroutine could interleave.
+	Yield func(point string)
+}
+
+var VerifH VerifHooks
+
+func verifTick(ctx *Context, pc int) {
+	if VerifH.Tick != nil {
+		VerifH.Tick(ctx, pc)
+	}
+}
+
+func verifRoll(src *rand.PCGSource, sides IntType, mode int, result IntType, family string) {
+	if VerifH.Roll != nil {
+		VerifH.Roll(src, sides, mode, result, family)
+	}
+}
+
+func verifParsed(ctx *Context, src string, err error) {
+	if VerifH.Parsed != nil {
+		VerifH.Parsed(ctx, src, err)
+	}
+}
+
+func verifCodeDrop() {
+	if VerifH.CodeDrop != nil {
+		VerifH.CodeDrop()
+	}
+}
+
+func verifEmit(e *ParserData, T CodeType) {
+	if VerifH.Emit != nil {
+		bc := ByteCode{T: T}
+		off := -1
+		// ParserData is the first field of ParserCustomData, which is what the parser
+		// actions really hold.
+		d := (*ParserCustomData)(unsafe.Pointer(e))
+		if d.ctx != nil && d.ctx.parser != nil {
+			off = d.ctx.parser.pt.offset
+		}
+		VerifH.Emit(off, e.codeIndex, verifOpName(&bc))
+	}
+}
+
+func verifYield(point string) {
+	if VerifH.Yield != nil {
+		VerifH.Yield(point)
+	}
+}
+
+// VerifOp is one instruction of a compiled program as seen by the monitors.
+type VerifOp struct {
+	T    int    // numeric opcode
+	Name string // mnemonic (first word of CodeString), "@raw" when unknown
+	Int  int64  // integer operand when HasInt
+	// HasInt tells whether the operand is an integer (jump offsets, counts).
+	HasInt bool
+	// OperandNil is true when the operand is nil (an unpatched jump has a nil operand
+	// only if it was never given one).
+	OperandNil bool
+	Str        string    // string operand (names), when the operand is a string
+	Span       [2]int64  // mark.detail begin/end
+	Body       []VerifOp // nested program of push.func / push.computed when precompiled
+	BodyExpr   string    // source text of the nested program
+	BodyParams []string  // parameter names for push.func
+	BodyLazy   bool      // nested value has no precompiled code (compiled at first call)
+	StOp       string    // st.mod operator
+	StText     string    // st.mod text
+	Text       string    // CodeString()
+}
+
+func verifOpName(c *ByteCode) string {
+	var s string
+	func() {
+		defer func() {
+			if recover() != nil {
+				s = ""
+			}
+		}()
+		switch c.T {
+		case typePushIntNumber:
+			s = "push.int"
+		case typePushFloatNumber:
+			s = "push.flt"
+		case typePushString:
+			s = "push.str"
+		case typePushArray:
+			s = "push.arr"
+		case typePushDict:
+			s = "push.dict"
+		case typePushComputed:
+			s = "push.computed"
+		case typePushFunction:
+			s = "push.func"
+		case typeInvoke:
+			s = "invoke"
+		case typeInvokeSelf:
+			s = "invoke.self"
+		case typeAttrSet:
+			s = "attr.set"
+		case typeAttrGet:
+			s = "attr.get"
+		case typeLoadName:
+			s = "ld"
+		case typeLoadNameWithDetail:
+			s = "ld.d"
+		case typeLoadNameRaw:
+			s = "ld.raw"
+		case typeLoadFormatString:
+			s = "ld.fs"
+		case typeStoreName:
+			s = "store"
+		case typeStoreNameGlobal:
+			s = "store.global"
+		case typeStoreNameLocal:
+			s = "store.local"
+		case typeDetailMark:
+			s = "mark.detail"
+		case typeJmp:
+			s = "jmp"
+		case typeJe:
+			s = "je"
+		case typeJeDup:
+			s = "je.dup"
+		case typeJne:
+			s = "jne"
+		case typePopN:
+			s = "popn"
+		case typeStModify:
+			s = "st.mod"
+		default:
+			cc := ByteCode{T: c.T}
+			s = cc.CodeString()
+		}
+	}()
+	if s == "" {
+		return "@raw"
+	}
+	return s
+}
+
+func verifConvertCode(code []ByteCode, n int, depth int) []VerifOp {
+	if n > len(code) {
+		n = len(code)
+	}
+	out := make([]VerifOp, 0, n)
+	for i := 0; i < n; i++ {
+		c := code[i]
+		op := VerifOp{T: int(c.T), Name: verifOpName(&c)}
+		func() {
+			defer func() {
+				if recover() != nil {
+					op.Text = "<CodeString panicked>"
+				}
+			}()
+			op.Text = c.CodeString()
+		}()
+		switch v := c.Value.(type) {
+		case nil:
+			op.OperandNil = true
+		case IntType:
+			op.HasInt = true
+			op.Int = int64(v)
+		case string:
+			op.Str = v
+		case BufferSpan:
+			op.Span = [2]int64{int64(v.Begin), int64(v.End)}
+		case StInfo:
+			op.StOp = v.Op
+			op.StText = v.Text
+		case *VMValue:
+			if depth < 64 && v != nil {
+				switch v.TypeId {
+				case VMTypeFunction:
+					if fd, ok := v.Value.(*FunctionData); ok && fd != nil {
+						op.BodyExpr = fd.Expr
+						op.BodyParams = append([]string(nil), fd.Params...)
+						op.Str = fd.Name
+						if fd.code != nil {
+							op.Body = verifConvertCode(fd.code, fd.codeIndex, depth+1)
+						} else {
+							op.BodyLazy = true
+						}
+					}
+				case VMTypeComputedValue:
+					if cd, ok := v.Value.(*ComputedData); ok && cd != nil {
+						op.BodyExpr = cd.Expr
+						if cd.code != nil {
+							op.Body = verifConvertCode(cd.code, cd.codeIndex, depth+1)
+						} else {
+							op.BodyLazy = true
+						}
+					}
+				}
+			}
+		}
+		out = append(out, op)
+	}
+	return out
+}
+
+// VerifCode returns the program compiled by the last Parse of ctx.
+func VerifCode(ctx *Context) []VerifOp {
+	return verifConvertCode(ctx.code, ctx.codeIndex, 0)
+}
+
+// VerifOpAt returns the mnemonic of instruction pc of the program ctx is executing.
+func VerifOpAt(ctx *Context, pc int) string {
+	if pc < 0 || pc >= len(ctx.code) {
+		return "@out"
+	}
+	return verifOpName(&ctx.code[pc])
+}
+
+// VerifOpT returns the numeric opcode at pc.
+func VerifOpT(ctx *Context, pc int) int {
+	if pc < 0 || pc >= len(ctx.code) {
+		return -1
+	}
+	return int(ctx.code[pc].T)
+}
+
+// VerifNestedCode returns the precompiled program of a function or computed value, or
+// nil when it has none (yet).
+func VerifNestedCode(v *VMValue) []VerifOp {
+	if v == nil {
+		return nil
+	}
+	switch v.TypeId {
+	case VMTypeFunction:
+		if fd, ok := v.Value.(*FunctionData); ok && fd != nil && fd.code != nil {
+			return verifConvertCode(fd.code, fd.codeIndex, 0)
+		}
+	case VMTypeComputedValue:
+		if cd, ok := v.Value.(*ComputedData); ok && cd != nil && cd.code != nil {
+			return verifConvertCode(cd.code, cd.codeIndex, 0)
+		}
+	}
+	return nil
+}
+
+// VerifParserExprCnt returns the number of grammar expressions evaluated by the last Parse.
+func VerifParserExprCnt(ctx *Context) uint64 {
+	if ctx.parser == nil || ctx.parser.Stats == nil {
+		return 0
+	}
+	return ctx.parser.ExprCnt
+}
+
+// VerifParserConfig returns the parser-side copy of the configuration after the last
+// Parse (macros act on this copy).
+func VerifParserConfig(ctx *Context) (RollConfig, bool) {
+	if ctx.parser == nil || ctx.parser.cur.data == nil {
+		return RollConfig{}, false
+	}
+	return ctx.parser.cur.data.Config, true
+}
+
+// VerifGlobalRandState returns the state of the package-level fallback generator.
+func VerifGlobalRandState() []byte {
+	b, _ := randSource.MarshalBinary()
+	return b
+}
+
+// VerifGlobalRandSrc returns the package-level fallback generator (identity only).
+func VerifGlobalRandSrc() *rand.PCGSource {
+	return randSource
+}
+
+// VerifUpCtxRoot walks the UpCtx chain.
+func VerifUpCtxRoot(ctx *Context) *Context {
+	for ctx.UpCtx != nil {
+		ctx = ctx.UpCtx
+	}
+	return ctx
+}
+
+// VerifParseErrorLanguage returns the package-level language setting.
+func VerifParseErrorLanguage() int {
+	return parseErrorLanguage
+}
+
+// VerifValueMapStats exposes internal counters of a ValueMap for evidence only.
+func VerifValueMapStats(m *ValueMap) (readLen int, dirtyLen int, amended bool, misses int) {
+	m.mu.Lock()
+	defer m.mu.Unlock()
+	read, _ := m.read.Load().(readOnlyValueMap)
+	return len(read.m), len(m.dirty), read.amended, m.misses
+}
